@@ -1282,6 +1282,17 @@ def genhkl_base(unit_cell, sysconditions, sintlmin, sintlmax, crystal_system='tr
         HSAVE = segm[segn, 0, :]
         HSAVE1 = segm[segn, 0, :]  #HSAVE1 =HSAVE
         sintlH = sintl(unit_cell, HSAVE)
+        # Number of steps to take along each direction of the segment. sintl is not
+        # monotonic along a step direction for oblique cells, so it cannot be used to
+        # decide when to stop. Instead: hkl = HSAVE + (i,j,k).segm[1:4], and a reflection
+        # hkl and a direct lattice vector m obey |hkl.m| <= 2*sintl*|m|, which bounds
+        # i, j and k for all reflections with sintl <= sintlmax.
+        minv = np.linalg.inv(segm[segn, 1:4, :])
+        mlen = np.sqrt(np.sum(np.dot(form_a_mat(unit_cell), minv)**2, axis=0))
+        nstep = np.floor(2*sintlmax*sintl_scale*mlen + np.abs(np.dot(HSAVE, minv)) + 1e-6)
+        hstep = 0
+        kstep = 0
+        lstep = 0
         while ltest == 0:
             while ktest == 0:
                 while htest == 0:
@@ -1296,8 +1307,8 @@ def genhkl_base(unit_cell, sysconditions, sintlmin, sintlmax, crystal_system='tr
                             nref = nref - 1
                     HNEW = HLAST + segm[segn, 1, :]
                     sintlH = sintl(unit_cell, HNEW)
-                    #if (sintlH >= sintlmin) and (sintlH <= sintlmax):
-                    if sintlH <= sintlmax*sintl_scale:
+                    hstep = hstep + 1
+                    if hstep <= nstep[0]:
                         HLAST = HNEW
                     else: 
                         htest = 1
@@ -1307,18 +1318,22 @@ def genhkl_base(unit_cell, sysconditions, sintlmin, sintlmax, crystal_system='tr
                 HLAST = HSAVE
                 HNEW  = HLAST
                 sintlH   = sintl(unit_cell, HNEW)
-                if sintlH > sintlmax*sintl_scale:
+                kstep = kstep + 1
+                if kstep > nstep[1]:
                     ktest = 1
                 htest = 0
+                hstep = 0
 
             HSAVE1 = HSAVE1 + segm[segn, 3, :]
             HSAVE = HSAVE1
             HLAST = HSAVE1
             HNEW = HLAST
             sintlH = sintl(unit_cell, HNEW)
-            if sintlH > sintlmax*sintl_scale:
+            lstep = lstep + 1
+            if lstep > nstep[2]:
                 ltest = 1
             ktest = 0
+            kstep = 0
 
     stl = np.transpose([stl])
     H = np.concatenate((H, stl), 1) # combine hkl and sintl
